@@ -789,7 +789,13 @@ class Saver:
 
         finally:
             if not self.closed:
-                self.close(wait_for=pending)
+                try:
+                    self.close(wait_for=pending)
+                except Exception as e:
+                    # Nobody listens to this thread any more: log the exception for the final check
+                    if self.got_exception is None:
+                        self.got_exception = e
+                    raise
 
     def save(self, chunk: strax.Chunk, chunk_i: int, executor=None):
         """Save a chunk, returning future to wait on or None."""
